@@ -104,18 +104,22 @@ CHECKS = {
    note=TB + " Assumed of sort.Slice: it is a deterministic comparison sort, correct on injective keys, comparing only indices in range."),
  'C08': dict(
    text="PARTIAL. Machine-checked proof (Coq) that two successful evaluations over worlds differing only in the order of the NetworkPolicies (Go's map-iteration order included), of the rules of a policy, of the peers and ports of a rule and of "
-        "policyTypes return the identical canonical connection set for every pair of peers; that every modelled formatter (list txt/md/csv/json, diff txt/md/csv, byte-exact models) is a function of the multiset of result entries — for ANY correct sort, not only the model's — "
-        "and that sorting strings/rows is order-independent (transitivity of Coq's string order proved); together with C01/C02 (the report is the Spec), C11 canonical forms and the order-independent ANP list this makes the model's output a function of the resource set. "
-        "Real map-iteration schedules, the dot and exposure writers and Errors() order are only sampled: every world is analysed repeatedly per format unchanged / reordered / re-partitioned into files / with rules, peers, ports permuted, and all outputs must be byte-identical.",
+        "policyTypes return the identical canonical connection set for every pair of peers; that every modelled formatter - byte-exact models of list txt/md/csv/json/dot, of list --exposure txt/md/csv/json/dot and of diff txt/md/csv/dot - "
+        "is a function of the multiset of result entries (and of the set of peers / exposed workloads and the multiset of entries of each) for ANY correct sort, not only the model's, including the unstable sort.Slice on (workload, other end) "
+        "under a no-ties condition and the dot node de-duplication under a node-name consistency condition, both evaluated on every implementation result; sorting strings/rows is order-independent (transitivity of Coq's string order proved); together with C01/C02 "
+        "(the report is the Spec), C11 canonical forms and the order-independent ANP list this makes the model's output a function of the resource set. "
+        "Real map-iteration schedules and Errors() order are only sampled: every world is analysed repeatedly per format unchanged / reordered / re-partitioned into files / with rules, peers, ports permuted; all outputs, and the answers of eval to 80 queries, must be identical.",
    design_ref='DESIGN.md section 6 / C08',
-   technique='Coq proof (permutation invariance of the format models for any correct sort) + repeated-run byte comparison under input permutations',
-   note=TB + " Partial: the theorem is about the model's explicit order parameter; the Go runtime's map order is sampled (Go randomises it per run). One defect (named-port-on-IP error depending on rule order) was repaired by a fix: commit."),
+   technique='Coq proof (permutation invariance of the byte-exact format models for any correct sort) + repeated-run byte comparison under input permutations',
+   note=TB + " Partial: the theorem is about the model's explicit order parameter; the Go runtime's map order is sampled (Go randomises it per run). Defects found and repaired by fix: commits: named-port-on-IP error depending on rule order (list) and on policy/rule/port order (eval), two order dependences of the printed exposure connection; one recorded known finding (representative spelling)."),
  'C09': dict(
-   text="PARTIAL. Byte-exact Gallina models of list txt/md/csv/json and diff txt/md/csv as functions of the analysis result, with machine-checked proofs that each lists every entry exactly once, that the row formats share their rows and that the printed connection is a function of the denoted set; "
-        "on every run the real formatter's bytes are compared with the model applied to the real API result, and every format incl. dot is parsed back to rows and compared with the API result and with every other format (list and diff).",
+   text="PARTIAL. Byte-exact Gallina models of list txt/md/csv/json/dot, list --exposure txt/md/csv/json/dot and diff txt/md/csv/dot as functions of the API result, with machine-checked proofs that each lists every entry exactly once, that the row formats share their rows, "
+        "that the printed connection is a function of the denoted set and - injectivity - that the printed connection determines the canonical set, a printed peer determines the peer, each of list txt/md/csv/json determines the report and each of diff txt/md determines the diff "
+        "(on a decidable domain evaluated on every implementation result; the model's own reports are proved to lie in it); "
+        "on every run the real formatter's bytes are compared with the model applied to the real API result in all 14 command/format combinations, and every format is also parsed back and compared with the API result and with every other format.",
    design_ref='DESIGN.md section 6 / C09',
-   technique='Coq format model (byte-exact) compared with the implementation + proofs of row exactness + parse-back of every format',
-   note=TB + " Partial: injectivity of the string rendering is not proved (covered by parse-back on generated results); encoding/json and encoding/csv are modelled on the alphabet the analysis produces; dot is parsed back only; exposure tables are covered by C06/C07's check."),
+   technique='Coq format models (byte-exact) compared with the implementation + proofs of row exactness and of injectivity of the rendering + parse-back of every format',
+   note=TB + " Partial: injectivity is not proved for diff csv, the dot outputs and the exposure sections (byte-exact models and parse-back); encoding/json and encoding/csv are modelled on the alphabet the analysis produces; a printed exposure connection is taken from ConnectionSet.String (modelled in ConnSet.v, compared by C11/C06) and checked against ProtocolsAndPortsMap()."),
  'C06': dict(
    text="Machine-checked proof (Coq), on the model of exposure mode (policy pre-scan, representative peers with unique keys and refinement, evaluation against a representative peer, protected flags, entire-cluster sets, "
         "exposure_map.go): (1) whenever list produces a report, exposure mode produces the same report (the pre-scan shortcuts change no connection between real peers); (2) 'not protected' iff no NetworkPolicy governs the workload in that direction; "
